@@ -116,6 +116,14 @@ CLAIMS.update({
    ref="DESIGN.md section 4 C19"),
 })
 
+CLAIMS.update({
+ "C16": dict(
+   technique="writer/reader binding-table agreement: string templates of the writer's emissions vs the reader's regex literals, declared-count vs emitting-loop agreement, extracted from clang AST",
+   text="Decides table agreement between mesh_writer and mesh_reader: every section line the writer emits (POINTS n float, CELLS a b, CELL_TYPES n, the cell_type_id field header) is matched by the reader's regex for that section, the declared coordinate type is accepted, the %.4e tokens are matched entirely by the reader's number regex and not cut by its end-of-section detector; declared counts agree with the emitting loops (points = sum of node_lst sizes with three coordinates per node, per-cell record 1+4F with literal 3 and get_node_ids() of size 3 plus the cell's own node offset, CELLS/CELL_TYPES counts, data-array lengths, cell_type_id from global_type_id_); the reader requires type 42 and verifies record lengths.",
+   note="Equality of the tissue after a round trip and precision of %.4e are value-level and not decided. Reader regexes are evaluated with Python's re (they only use constructs common to both dialects).",
+   ref="DESIGN.md section 4 C16"),
+})
+
 NA_DEFAULT = "checker not finished yet (see DESIGN.md section 4 for the planned clauses)"
 NA = {}
 
